@@ -3,7 +3,7 @@
 From Coq Require Import ZArith String List Bool.
 Import ListNotations.
 Require Import ZV.Model.PrattTypes ZV.Model.Pratt ZV.Model.PrattSpec ZV.Generated.InfixTable.
-Require Import ZV.Model.PrattFor ZV.Proofs.PrattProofs ZV.Proofs.PrattInstance ZV.Proofs.PrattForProofs.
+Require Import ZV.Model.PrattSlice ZV.Proofs.PrattSliceProofs ZV.Model.PrattFor ZV.Proofs.PrattProofs ZV.Proofs.PrattInstance ZV.Proofs.PrattForProofs.
 Open Scope Z_scope.
 Open Scope string_scope.
 
@@ -195,6 +195,16 @@ Theorem for_three_clause :
 Proof. intros E K led_err body_empty. exact (three_clause E K for_consts led_err body_empty for_guards_ok). Qed.
 Print Assumptions for_three_clause.
 
+(* what (arrayidx a [...]) selects: the model of SexpArraySelector.sliceBounds / RHS gives, for every
+   array and every well-shaped selector [i] [lo : hi] [: hi] [lo :] [:] (any integers), exactly what Go
+   slicing gives: lo defaults to 0, hi to len(a), valid iff 0 <= lo <= hi <= len(a) (an explicit 0
+   is a bound like any other: a[:0] is empty), a[i] valid iff 0 <= i < len(a); otherwise an error *)
+Theorem slice_selects_go_slice :
+  forall (A : Type) (l : list A) sel sh,
+    shape_of sel = Some sh -> select_model A l sel = select_spec A l sh.
+Proof. exact select_exact. Qed.
+Print Assumptions slice_selects_go_slice.
+
 (* non-vacuity *)
 Definition s (n : string) : tok := TSym n false.
 Example ex_precedence :
@@ -288,4 +298,9 @@ Example ex_other_literal_starts_statement :
      = Some [Bin (s "=") (Leaf (s "x")) (Leaf (TInt 5)); Leaf (TOther 1)]
   /\ m_parse_block T_E T_K nf [s "x"; s "="; TInt 5; TSemi; TOther 1]
      = ROk [Bin (s "=") (Leaf (s "x")) (Leaf (TInt 5)); Leaf (TOther 1)].
+Proof. vm_compute. repeat split; reflexivity. Qed.
+Example ex_slice_zero_bound :
+  select_model Z [10; 20; 30] [SColon; SInt 0] = VSlice []
+  /\ select_model Z [10; 20; 30] [SInt 1; SColon] = VSlice [20; 30]
+  /\ select_model Z [10; 20; 30] [SInt 2; SColon; SInt 0] = VErr.
 Proof. vm_compute. repeat split; reflexivity. Qed.
